@@ -158,11 +158,18 @@ def paste_eligibility(prog: Program) -> List[Instance]:
         if isinstance(kv, ast.Name):
             rs_name = kv.id
     rs_uses = []
+    clamped = None
     for n in walk_own(crr.node):
-        if isinstance(n, ast.Call) and call_name(n) in ("zoom_out", "scaled_up_roi", "scale"):
+        if isinstance(n, ast.Call) and call_name(n) in ("zoom_out", "compute_zoom_out", "scaled_down_shape", "scaled_up_roi", "scale"):
             if rs_name is not None and rs_name in names_in(n):
-                rs_uses.append(call_name(n))
-    ok = {"zoom_out", "scaled_up_roi", "scale"} <= set(rs_uses)
+                rs_uses.append("overview" if call_name(n) in ("zoom_out", "compute_zoom_out", "scaled_down_shape") else call_name(n))
+                if call_name(n) in ("zoom_out", "compute_zoom_out"):
+                    clamped = n
+    ok = {"overview", "scaled_up_roi", "scale"} <= set(rs_uses)
+    # the overview of an empty source is empty: zoom_out()/compute_zoom_out() never return less than 1x1 (F61)
+    out.append(Instance("R-GUARDSEQ", f"{crr.qual}#paste:overview-of-empty", BAD if clamped is not None else OK,
+                        f"`{short(clamped)}`: the overview shape comes from zoom_out, which is at least 1x1 - an empty source gets non-empty planned regions" if clamped is not None
+                        else "overview shape for the shrink>1 paste maps 0 -> 0 (scaled_down_shape)", crr.where(clamped) if clamped is not None else crr.where()))
     out.append(Instance("R-GUARDSEQ", f"{crr.qual}#paste:one-shrink-factor", OK if ok else BAD,
                         "the reported read_shrink is the factor used by zoom_out, Affine.scale(1/.) and scaled_up_roi" if ok else f"the reported read_shrink is not the one factor used for overview geobox, affine and region scale-up (used by: {rs_uses})", crr.where()))
     return out
